@@ -345,6 +345,12 @@ Definition force_delete (n : N) (ttl : Z) (owns : bool) (wb : list bool) (s : st
       else (s1, ODel false false)
   end.
 
+(* cleanup.go:86-120 addJob: defaults applied, nothing started when Disabled, else a ticker of
+   period Interval whose every tick runs cleanup with cachedInAgentPolicy. The operation `Job` is
+   "a job is added, the clock advances by dt (at most one period), the job is stopped" *)
+Definition job_fires (c : cfg) (disabled : bool) (dt : Z) : bool :=
+  negb disabled && (c_interval (apply_defaults c) <=? dt).
+
 (* ---- histories *)
 Inductive op :=
 | Tick (dt : Z)                                   (* the clock advances *)
@@ -360,6 +366,7 @@ Inductive op :=
 | TtlPass (tti ttl thr : Z) (u : option usage) (scan : list N)
 | PolicyPass (thr : Z) (total : option Z) (scan order : list N)
 | Cleanup (c : cfg) (pol : bool) (u : option usage) (scan order : list N)
+| Job (c : cfg) (disabled : bool) (dt : Z) (u : option usage) (scan order : list N)
 | ForceDelete (n : N) (ttl : Z) (owns : bool) (wb : list bool).
 
 Definition of_found (p : st * bool) : st * out :=
@@ -381,6 +388,10 @@ Definition step (s : st) (o : op) : st * out :=
   | TtlPass tti ttl thr u scan => (ttl_pass tti ttl thr u scan s, OPass true false)
   | PolicyPass thr total scan order => policy_pass thr total scan order s
   | Cleanup c pol u scan order => cleanup c pol u scan order s
+  | Job c dis dt u scan order =>
+      let s1 := mkst (dk s) (fm s) (now s + dt) (cap s) in
+      if job_fires c dis dt then cleanup (apply_defaults c) true u scan order s1
+      else (s1, OPass true false)
   | ForceDelete n ttl owns wb => force_delete n ttl owns wb s
   end.
 
@@ -526,6 +537,18 @@ Definition chk_policy (c thr tot nw : Z) (scan order : list N) (prev : list (N *
 Definition pass_mode (c : cfg) (pol : bool) (u : option usage) : bool :=
   should_aggro c u && pol && negb (c_alow c =? 0).
 
+Definition chk_cleanup (c nw : Z) (prev : list (N * file)) (pmap : list N)
+           (cf : cfg) (pol : bool) (u : option usage) (scan order : list N) (r : out)
+           (cur : list (N * file)) : bool :=
+  match r with
+  | OPass true false =>
+      if pass_mode cf pol u then
+        match u with Some uu => chk_policy c (c_alow cf) (u_total uu) nw scan order prev pmap cur | None => true end
+      else if should_aggro cf u then true
+      else chk_exact c (c_tti cf) (c_ttl cf) nw scan prev pmap cur
+  | _ => true
+  end.
+
 Definition chk_step (c nw : Z) (prev : list (N * file)) (pmap : list N) (o : op) (ob : obs) : bool :=
   let '(r, cur, _) := ob in
   chk_persist prev o cur &&
@@ -534,20 +557,24 @@ Definition chk_step (c nw : Z) (prev : list (N * file)) (pmap : list N) (o : op)
       if thr =? 0 then chk_exact c tti ttl nw scan prev pmap cur else true
   | PolicyPass thr (Some tot) scan order, OPass true false =>
       chk_policy c thr tot nw scan order prev pmap cur
-  | Cleanup cf pol u scan order, OPass true false =>
-      if pass_mode cf pol u then
-        match u with Some uu => chk_policy c (c_alow cf) (u_total uu) nw scan order prev pmap cur | None => true end
-      else if should_aggro cf u then true
-      else chk_exact c (c_tti cf) (c_ttl cf) nw scan prev pmap cur
+  | Cleanup cf pol u scan order, _ => chk_cleanup c nw prev pmap cf pol u scan order r cur
+  | Job cf dis dt u scan order, _ =>
+      if job_fires cf dis dt
+      then chk_cleanup c (nw + dt) prev pmap (apply_defaults cf) true u scan order r cur
+      else true
   | _, _ => true
   end.
+
+(* the clock after an operation *)
+Definition tick_of (o : op) (nw : Z) : Z :=
+  match o with Tick dt => nw + dt | Job _ _ dt _ _ _ => nw + dt | _ => nw end.
 
 Fixpoint chk_from (c nw : Z) (prev : list (N * file)) (pmap : list N) (ops : list op) (obsl : list obs) : bool :=
   match ops, obsl with
   | [], _ => true
   | o :: t, ob :: obt =>
       chk_step c nw prev pmap o ob &&
-      chk_from c (match o with Tick dt => nw + dt | _ => nw end) (snd (fst ob)) (snd ob) t obt
+      chk_from c (tick_of o nw) (snd (fst ob)) (snd ob) t obt
   | _ :: _, [] => false
   end.
 
@@ -568,6 +595,7 @@ Definition op_ok (o : op) : bool :=
   | TtlPass _ _ _ _ scan => nodupb scan
   | PolicyPass _ _ scan _ => nodupb scan
   | Cleanup _ _ _ scan _ => nodupb scan
+  | Job _ _ _ _ scan _ => nodupb scan
   | _ => true
   end.
 
